@@ -26,9 +26,9 @@ using OptVec = std::optional<std::vector<int>>; using UPtrVec = std::unique_ptr<
 	X(50, std::unordered_set<std::string>, 1) X(51, std::unordered_multiset<int>, 1) X(52, std::queue<int>, 1) X(53, std::stack<std::string>, 1) X(54, std::priority_queue<int>, 1) X(55, std::set<std::string>, 1) \
 	X(56, MapSI, 2) X(57, MapIS, 2) X(58, MapDbl, 2) X(59, MapU64, 2) X(60, MapI8, 2) X(61, MapEnum, 2) X(62, MapWs, 2) X(63, MapU16, 2) X(64, MapSVec, 2) X(65, MapSMap, 2) X(66, MapFloat, 2) X(67, MapTp, 2) \
 	X(68, MMapIS, 2) X(69, MMapSS, 2) X(70, UMapSI, 2) X(71, UMapIS, 2) X(72, UMMapIS, 2) X(73, PairIS, 2) X(74, PairSP, 2) X(75, TupISD, 2) X(76, TupNested, 2) \
-	X(77, std::optional<int>, 2) X(78, std::optional<std::string>, 2) X(79, std::optional<Pt>, 2) X(80, OptVec, 2) X(81, std::unique_ptr<Pt>, 2) X(82, std::unique_ptr<int>, 2) X(83, UPtrVec, 2) X(84, std::shared_ptr<std::string>, 2) X(85, SPtrMap, 2) X(86, std::shared_ptr<Derived>, 2) X(87, DerivedLate, 2) X(88, TwoBases, 2) X(89, std::vector<DerivedLate>, 2) X(90, LongKeys, 2) X(91, EmptyKey, 2) X(92, MapU64I, 2) X(93, MapI64S, 2)
+	X(77, std::optional<int>, 2) X(78, std::optional<std::string>, 2) X(79, std::optional<Pt>, 2) X(80, OptVec, 2) X(81, std::unique_ptr<Pt>, 2) X(82, std::unique_ptr<int>, 2) X(83, UPtrVec, 2) X(84, std::shared_ptr<std::string>, 2) X(85, SPtrMap, 2) X(86, std::shared_ptr<Derived>, 2) X(87, DerivedLate, 2) X(88, TwoBases, 2) X(89, std::vector<DerivedLate>, 2) X(90, LongKeys, 2) X(91, EmptyKey, 2) X(92, MapU64I, 2) X(93, MapI64S, 2) X(94, WithAttrs, 2) X(95, std::vector<WithAttrs>, 2)
 
-constexpr size_t group_first[] = { 0, 30, 56, 94 };
+constexpr size_t group_first[] = { 0, 30, 56, 96 };
 
 #ifndef MODEL_GROUP
 #define MODEL_GROUP -1
